@@ -600,4 +600,1033 @@ theorem ext_addEdges (bs : List Block) (fs : List Nat) (hd : Nat) (h : ∀ p, p 
   · have : fs.contains i = false := by simpa using hp
     rw [this]; rfl
 
+-- ---------------------------------------------------------------------------- the source semantics once stopped
+
+theorem loop_stop (body : Run → Run) (loc : Loc) : ∀ (f : Nat) (r : Run), r.stop = true → Trace.loop body loc f r = r := by
+  intro f
+  cases f with
+  | zero => intro r h; unfold Trace.loop; cases r; simp_all
+  | succ f => intro r h; unfold Trace.loop; simp [h]
+
+mutual
+theorem exec_stop (rets : List Loc) (fuel : Nat) : ∀ (s : Stmt) (r : Run), r.stop = true → exec rets fuel s r = r
+  | .simple loc, r, h => by unfold exec; simp [h]
+  | .init cs, r, h => by unfold exec; exact execList_stop rets fuel cs r h
+  | .block cs, r, h => by unfold exec; exact execList_stop rets fuel cs r h
+  | .ite loc t, r, h => by unfold exec; simp [h]
+  | .iteElse loc t e, r, h => by unfold exec; simp [h]
+  | .while loc b, r, h => by unfold exec; exact loop_stop _ loc fuel r h
+theorem execList_stop (rets : List Loc) (fuel : Nat) : ∀ (cs : Stmts) (r : Run), r.stop = true → execList rets fuel cs r = r
+  | .nil, r, _ => by unfold execList; rfl
+  | .cons s rest, r, h => by
+    unfold execList
+    rw [exec_stop rets fuel s r h]
+    exact execList_stop rets fuel rest r h
+end
+
+-- ---------------------------------------------------------------------------- states of the construction
+
+/-- the current (last) block is plain and open: statements can be appended to it -/
+def CurOpen (bs : List Block) : Prop := ∃ b, bs[bs.length - 1]? = some b ∧ PlainOpen b
+
+/-- the number of statements already in the current block -/
+def curLen (bs : List Block) : Nat := ((bs[bs.length - 1]?).map (fun b => b.stmts.length)).getD 0
+
+/-- the ways out of a finished fragment: the end of the current block (nothing pending), or the end /
+    the open false edge of one of the pending blocks -/
+def ExitOf (bs : List Block) (ps : List Nat) (e : End) : Prop :=
+  (ps = [] ∧ e = .at (bs.length - 1) (curLen bs)) ∨
+  (∃ p b, p ∈ ps ∧ bs[p]? = some b ∧ ((PlainOpen b ∧ e = .at p b.stmts.length) ∨ (BranchOpen p b ∧ e = .fe p)))
+
+/-- what `visit` guarantees about the blocks -/
+structure Res (bs bs1 : List Block) (ps1 : List Nat) : Prop where
+  ext : Ext bs bs1
+  len : bs.length ≤ bs1.length
+  frame : ∀ i, i + 1 < bs.length → bs1[i]? = bs[i]?
+  cur : ps1 = [] → CurOpen bs1
+  pend : ∀ p, p ∈ ps1 → OpenAt bs1 p
+  ge : ∀ p, p ∈ ps1 → bs.length - 1 ≤ p
+
+/-- the run `r'` obtained from `r` is matched by a path that starts at offset `a` of block `i`, after a path
+    prefix `tr₀` from `(i₀, a₀)` -/
+def PathOut (bs1 : List Block) (ps1 : List Nat) (i₀ a₀ : Nat) (tr₀ : List Loc) (ds₀ : List Bool) (r r' : Run) : Prop :=
+  ∃ tr, r'.trace = r.trace ++ tr ∧
+    (r'.stop = false → ∃ e, Path bs1 i₀ a₀ (tr₀ ++ tr) ds₀ r'.ds e ∧ ExitOf bs1 ps1 e) ∧
+    (r'.stop = true → ∃ tr' ds'' e, Path bs1 i₀ a₀ tr' ds₀ ds'' e ∧ (tr₀ ++ tr) <+: tr')
+
+theorem PathOut.mono {bs1 bs2 : List Block} {ps1 : List Nat} {i₀ a₀ : Nat} {tr₀ : List Loc} {ds₀ : List Bool} {r r' : Run}
+    (hx : Ext bs1 bs2) (h : PathOut bs1 ps1 i₀ a₀ tr₀ ds₀ r r') (hstop : r'.stop = true) :
+    ∀ ps2, PathOut bs2 ps2 i₀ a₀ tr₀ ds₀ r r' := by
+  intro ps2
+  obtain ⟨tr, h1, _, h3⟩ := h
+  refine ⟨tr, h1, ?_, ?_⟩
+  · intro hn; rw [hstop] at hn; cases hn
+  · intro _
+    obtain ⟨tr', ds'', e, hp, hpre⟩ := h3 hstop
+    exact ⟨tr', ds'', e, hp.mono hx, hpre⟩
+
+-- ---------------------------------------------------------------------------- connecting the exits
+
+theorem plain_not_branch {p : Nat} {b : Block} (h₁ : PlainOpen b) (h₂ : BranchOpen p b) : False := by
+  obtain ⟨l, hl⟩ := branchOpen_last h₂
+  have := h₁.1
+  simp [trailingBranch, hl] at this
+
+theorem exitOf_orLast {bs : List Block} {ps : List Nat} {e : End} (h : ExitOf bs ps e) (hc : ps = [] → CurOpen bs) :
+    ExitOf bs (orLast ps bs) e := by
+  rcases h with ⟨hps, he⟩ | h
+  · obtain ⟨b, hb, ho⟩ := hc hps
+    right
+    refine ⟨bs.length - 1, b, by simp [orLast, hps], hb, Or.inl ⟨ho, ?_⟩⟩
+    rw [he]; simp [curLen, hb]
+  · obtain ⟨p, b, hp, hb, hcase⟩ := h
+    right
+    refine ⟨p, b, ?_, hb, hcase⟩
+    unfold orLast
+    have : ps ≠ [] := by intro e'; rw [e'] at hp; cases hp
+    simp [this]; exact hp
+
+theorem openAt_orLast {bs : List Block} {ps : List Nat} (hp : ∀ p, p ∈ ps → OpenAt bs p) (hc : ps = [] → CurOpen bs) :
+    ∀ p, p ∈ orLast ps bs → OpenAt bs p := by
+  intro p hmem
+  unfold orLast at hmem
+  by_cases hps : ps = []
+  · simp [hps] at hmem
+    obtain ⟨b, hb, ho⟩ := hc hps
+    subst hmem
+    exact ⟨b, hb, Or.inl ho⟩
+  · have : ps.isEmpty = false := by simpa using hps
+    rw [this] at hmem
+    exact hp p hmem
+
+theorem orLast_ne (ps : List Nat) (bs : List Block) : orLast ps bs ≠ [] := by
+  unfold orLast; split
+  · simp
+  · rename_i h; intro e; rw [e] at h; simp at h
+
+/-- all pending exits are connected to the block that `completeBlock` creates -/
+theorem connect_complete (bs : List Block) (ps : List Nat) (d : Nat) (hne : ps ≠ []) (hop : ∀ p, p ∈ ps → OpenAt bs p)
+    {i a : Nat} {tr : List Loc} {ds ds' : List Bool} {e : End} (hex : ExitOf bs ps e) (hpath : Path bs i a tr ds ds' e) :
+    Path (completeBlock bs ps d) i a tr ds ds' (.at bs.length 0) := by
+  have hx := ext_completeBlock bs ps d hop
+  have hp' := hpath.mono hx
+  rcases hex with ⟨hps, _⟩ | ⟨p, b, hp, hb, hcase⟩
+  · exact absurd hps hne
+  · have hlt : p < bs.length := (List.getElem?_eq_some_iff.mp hb).1
+    have hget : (completeBlock bs ps d)[p]? = some (completed bs.length ps p b) := by
+      rw [completeBlock_get_lt bs ps d p hlt, hb]; rfl
+    rcases hcase with ⟨ho, he⟩ | ⟨ho, he⟩
+    · subst he
+      obtain ⟨hs, hsu⟩ := completed_plain bs.length ps p b ho hp
+      have hfall : Path (completeBlock bs ps d) p b.stmts.length [] ds' ds' (.at bs.length 0) :=
+        .fall p _ _ bs.length [] ds' ds' _ hget (by rw [hs]) (by simpa [trailingBranch, hs] using ho.1) hsu (.here _ _ _)
+      simpa using hp'.trans hfall
+    · subst he
+      obtain ⟨b', hb', hcls⟩ := hop p hp
+      rw [hb] at hb'; cases hb'
+      rcases hcls with hpl | ⟨_, hlen⟩
+      · exact (plain_not_branch hpl ho).elim
+      · obtain ⟨init, l, hs, hs', hsu⟩ := completed_branch bs.length ps p b ho hp hlen
+        have hl : (completed bs.length ps p b).stmts.getLast? = some (IStmt.branch l (p + 1) (some bs.length)) := by
+          rw [hs']; simp
+        have := hp'.resolve hget hl (by simp [falseTgt]) (.here bs.length 0 ds')
+        simpa using this
+
+/-- all pending exits are connected to the loop header by `addEdges` -/
+theorem connect_edges (bs : List Block) (fs : List Nat) (h : Nat) (hne : fs ≠ []) (hop : ∀ p, p ∈ fs → OpenAt bs p)
+    (hh : ∀ p, p ∈ fs → h ≠ p + 1)
+    {i a : Nat} {tr : List Loc} {ds ds' : List Bool} {e : End} (hex : ExitOf bs fs e) (hpath : Path bs i a tr ds ds' e) :
+    Path (addEdges bs fs h) i a tr ds ds' (.at h 0) := by
+  have hx := ext_addEdges bs fs h hop
+  have hp' := hpath.mono hx
+  rcases hex with ⟨hps, _⟩ | ⟨p, b, hp, hb, hcase⟩
+  · exact absurd hps hne
+  · have hget : (addEdges bs fs h)[p]? = some (edged fs h p b) := by rw [addEdges_get, hb]; rfl
+    have hc : fs.contains p = true := by simpa using hp
+    rcases hcase with ⟨ho, he⟩ | ⟨ho, he⟩
+    · subst he
+      have hsu : (edged fs h p b).succs = [h] := by rw [edged_succs, if_pos hc, ho.2]; simp [insertSorted]
+      have hfall : Path (addEdges bs fs h) p b.stmts.length [] ds' ds' (.at h 0) :=
+        .fall p _ _ h [] ds' ds' _ hget (by rw [edged_stmts]) (by simpa [trailingBranch, edged_stmts] using ho.1) hsu (.here _ _ _)
+      simpa using hp'.trans hfall
+    · subst he
+      obtain ⟨init, l, hs, hsu⟩ := ho
+      have hl : (edged fs h p b).stmts.getLast? = some (IStmt.branch l (p + 1) none) := by
+        rw [edged_stmts, hs]; simp
+      have hne' := hh p hp
+      have hf : falseTgt (edged fs h p b) (p + 1) none = some h := by
+        unfold falseTgt
+        simp only [edged_succs, if_pos hc, hsu, insertSorted]
+        by_cases h1 : h < p + 1
+        · simp [h1, hne']
+        · have h2 : ¬ h = p + 1 := hne'
+          simp [h1, h2, hne']
+      have := hp'.resolve hget hl hf (.here h 0 ds')
+      simpa using this
+
+-- ---------------------------------------------------------------------------- the blocks before an `if` / `while` body
+
+theorem ext_of_pointwise (G G' : List Block) (c : Nat) (b : Block) (hb : G[c]? = some b) (ho : PlainOpen b)
+    (hsame : ∀ i, i < G.length → i ≠ c → G'[i]? = G[i]?)
+    (hc : ∃ b', G'[c]? = some b' ∧ ∃ extra, b'.stmts = b.stmts ++ extra) : Ext G G' := by
+  intro i bi hi
+  have hlt : i < G.length := (List.getElem?_eq_some_iff.mp hi).1
+  by_cases hic : i = c
+  · subst hic
+    rw [hb] at hi; cases hi
+    obtain ⟨b', hb', extra, hs⟩ := hc
+    refine ⟨b', hb', fun cl => absurd cl (plainOpen_not_closed ho), fun _ => ⟨?_, ?_⟩⟩
+    · intro a s hs'
+      left
+      rw [hs]
+      have := (List.getElem?_eq_some_iff.mp hs').1
+      rw [List.getElem?_append_left this]; exact hs'
+    · intro ht; rw [ho.1] at ht; cases ht
+  · exact ⟨bi, by rw [hsame i hlt hic]; exact hi, blockExt_refl bi⟩
+
+structure ItePre (bs bsP : List Block) (loc : Loc) : Prop where
+  len : bsP.length = bs.length + 1
+  cond : ∃ b bc, bs[bs.length - 1]? = some b ∧ bsP[bs.length - 1]? = some bc ∧
+    bc.stmts = b.stmts ++ [IStmt.branch loc (bs.length - 1 + 1) none] ∧ bc.succs = [bs.length - 1 + 1]
+  cur : CurOpen bsP
+  curLen : curLen bsP = 0
+  ext : Ext bs bsP
+  frame : ∀ i, i + 1 < bs.length → bsP[i]? = bs[i]?
+
+theorem itePre_facts (bs : List Block) (loc : Loc) (d : Nat) (hpos : 0 < bs.length) (hc : CurOpen bs) :
+    ItePre bs (itePre loc d bs) loc := by
+  obtain ⟨b, hb, ho⟩ := hc
+  have hlenA : (appendStmt bs (IStmt.branch loc (bs.length - 1 + 1) none)).length = bs.length := length_appendStmt _ _
+  have hlen : (itePre loc d bs).length = bs.length + 1 := by
+    unfold itePre; simp only [length_completeBlock, length_appendStmt]
+  -- the blocks below the new one
+  have hget : ∀ i, i < bs.length → (itePre loc d bs)[i]? =
+      (bs[i]?).map (fun b => completed bs.length [bs.length - 1] i (if i = bs.length - 1 then { b with stmts := b.stmts ++ [IStmt.branch loc (bs.length - 1 + 1) none] } else b)) := by
+    intro i hi
+    unfold itePre
+    simp only
+    rw [completeBlock_get_lt _ _ _ _ (by rw [hlenA]; exact hi), appendStmt_get, hlenA]
+    cases bs[i]? <;> rfl
+  have hnew : (itePre loc d bs)[bs.length]? = some { depth := d, stmts := [], preds := union [bs.length - 1] [], succs := [] } := by
+    unfold itePre
+    simp only
+    have := completeBlock_get_new (appendStmt bs (IStmt.branch loc (bs.length - 1 + 1) none)) [bs.length - 1] d
+    rw [hlenA] at this; exact this
+  have hsame : ∀ i, i < bs.length → i ≠ bs.length - 1 → (itePre loc d bs)[i]? = bs[i]? := by
+    intro i hi hne
+    rw [hget i hi]
+    cases hbi : bs[i]? with
+    | none => rfl
+    | some bi =>
+      simp only [Option.map_some, if_neg hne]
+      rw [completed_other _ _ _ _ (by simpa using hne)]
+  have hcond : ∃ bc, (itePre loc d bs)[bs.length - 1]? = some bc ∧
+      bc.stmts = b.stmts ++ [IStmt.branch loc (bs.length - 1 + 1) none] ∧ bc.succs = [bs.length - 1 + 1] := by
+    refine ⟨_, by rw [hget _ (by omega), hb]; rfl, ?_, ?_⟩
+    · simp only [if_true]
+      unfold completed
+      simp only [List.contains_cons, beq_self_eq_true, Bool.true_or, if_true]
+      unfold patchFalse
+      simp only [List.getLast?_append, List.getLast?_singleton, Option.some_or]
+      have : (bs.length != bs.length - 1 + 1) = false := by simp; omega
+      simp [this]
+    · simp only [if_true]
+      unfold completed
+      simp only [List.contains_cons, beq_self_eq_true, Bool.true_or, if_true]
+      rw [patchFalse_succs]
+      simp only [ho.2, insertSorted]
+      congr 1; omega
+  obtain ⟨bc, hbc, hs, hsu⟩ := hcond
+  refine ⟨hlen, ⟨b, bc, hb, hbc, hs, hsu⟩, ?_, ?_, ?_, ?_⟩
+  · refine ⟨_, by rw [hlen]; simpa using hnew, ?_⟩
+    exact ⟨by simp [trailingBranch], rfl⟩
+  · unfold TracePaths.curLen; rw [hlen]; simp [hnew]
+  · exact ext_of_pointwise bs _ (bs.length - 1) b hb ho hsame ⟨bc, hbc, _, hs⟩
+  · intro i hi; exact hsame i (by omega) (by omega)
+
+structure WhilePre (bs bsW : List Block) (loc : Loc) : Prop where
+  len : bsW.length = bs.length + 2
+  before : ∃ b bc, bs[bs.length - 1]? = some b ∧ bsW[bs.length - 1]? = some bc ∧ bc.stmts = b.stmts ∧ bc.succs = [bs.length]
+  header : ∃ bh, bsW[bs.length]? = some bh ∧ bh.stmts = [IStmt.branch loc (bs.length + 1) none] ∧ bh.succs = [bs.length + 1]
+  cur : CurOpen bsW
+  curLen : curLen bsW = 0
+  ext : Ext bs bsW
+  frame : ∀ i, i + 1 < bs.length → bsW[i]? = bs[i]?
+
+theorem whilePre_facts (bs : List Block) (loc : Loc) (d : Nat) (hpos : 0 < bs.length) (hc : CurOpen bs) :
+    WhilePre bs (whilePre loc d bs) loc := by
+  obtain ⟨b, hb, ho⟩ := hc
+  -- stage 1: the header block is created
+  let bs1 := completeBlock bs [bs.length - 1] d
+  have hl1 : bs1.length = bs.length + 1 := length_completeBlock _ _ _
+  have g1 : ∀ i, i < bs.length → bs1[i]? = (bs[i]?).map (completed bs.length [bs.length - 1] i) :=
+    fun i hi => completeBlock_get_lt bs _ d i hi
+  have n1 : bs1[bs.length]? = some { depth := d, stmts := [], preds := union [bs.length - 1] [], succs := [] } :=
+    completeBlock_get_new bs _ d
+  -- stage 2: the branch is appended to the header
+  let bs2 := appendStmt bs1 (IStmt.branch loc (bs.length - 1 + 2) none)
+  have hl2 : bs2.length = bs.length + 1 := by simp only [bs2, length_appendStmt, hl1]
+  have g2 : ∀ i, bs2[i]? = (bs1[i]?).map (fun b => if i = bs.length then { b with stmts := b.stmts ++ [IStmt.branch loc (bs.length - 1 + 2) none] } else b) := by
+    intro i
+    have := appendStmt_get bs1 (IStmt.branch loc (bs.length - 1 + 2) none) i
+    rw [hl1] at this
+    simpa using this
+  -- stage 3: the first block of the body
+  have hw : whilePre loc d bs = completeBlock bs2 [bs.length - 1 + 1] (d + 1) := rfl
+  have hlen : (whilePre loc d bs).length = bs.length + 2 := by rw [hw, length_completeBlock, hl2]
+  have g3 : ∀ i, i < bs.length + 1 → (whilePre loc d bs)[i]? = (bs2[i]?).map (completed (bs.length + 1) [bs.length - 1 + 1] i) := by
+    intro i hi
+    rw [hw]
+    have := completeBlock_get_lt bs2 [bs.length - 1 + 1] (d + 1) i (by rw [hl2]; exact hi)
+    rw [hl2] at this; exact this
+  have n3 : (whilePre loc d bs)[bs.length + 1]? = some { depth := d + 1, stmts := [], preds := union [bs.length - 1 + 1] [], succs := [] } := by
+    rw [hw]
+    have := completeBlock_get_new bs2 [bs.length - 1 + 1] (d + 1)
+    rw [hl2] at this; exact this
+  have hcm : bs.length - 1 + 1 = bs.length := by omega
+  have hsame : ∀ i, i < bs.length → i ≠ bs.length - 1 → (whilePre loc d bs)[i]? = bs[i]? := by
+    intro i hi hne
+    rw [g3 i (by omega), g2 i, g1 i hi]
+    cases hbi : bs[i]? with
+    | none => rfl
+    | some bi =>
+      simp only [Option.map_some]
+      have hne2 : i ≠ bs.length := by omega
+      rw [completed_other (bs.length + 1) [bs.length - 1 + 1] i _ (by simp; omega)]
+      simp only [if_neg hne2]
+      rw [completed_other bs.length [bs.length - 1] i _ (by simpa using hne)]
+  have hbefore : ∃ bc, (whilePre loc d bs)[bs.length - 1]? = some bc ∧ bc.stmts = b.stmts ∧ bc.succs = [bs.length] := by
+    have hne2 : bs.length - 1 ≠ bs.length := by omega
+    obtain ⟨hs, hsu⟩ := completed_plain bs.length [bs.length - 1] (bs.length - 1) b ho (by simp)
+    refine ⟨completed bs.length [bs.length - 1] (bs.length - 1) b, ?_, hs, hsu⟩
+    rw [g3 _ (by omega), g2, g1 _ (by omega), hb]
+    simp only [Option.map_some, if_neg hne2]
+    rw [completed_other (bs.length + 1) [bs.length - 1 + 1] (bs.length - 1) _ (by simp)]
+  have hheader : ∃ bh, (whilePre loc d bs)[bs.length]? = some bh ∧
+      bh.stmts = [IStmt.branch loc (bs.length + 1) none] ∧ bh.succs = [bs.length + 1] := by
+    refine ⟨_, by rw [g3 _ (by omega), g2, n1]; rfl, ?_, ?_⟩
+    · simp only [if_true, List.nil_append]
+      unfold completed
+      have : ([bs.length - 1 + 1] : List Nat).contains bs.length = true := by simp; omega
+      rw [if_pos this]
+      unfold patchFalse
+      simp only [List.getLast?_singleton]
+      have h2 : (bs.length + 1 != bs.length - 1 + 2) = false := by simp; omega
+      simp only [h2, Bool.false_eq_true, if_false]
+      congr 2; omega
+    · simp only [if_true]
+      unfold completed
+      have : ([bs.length - 1 + 1] : List Nat).contains bs.length = true := by simp; omega
+      rw [if_pos this, patchFalse_succs]
+      simp [insertSorted]
+  obtain ⟨bc, hbc, hs, hsu⟩ := hbefore
+  refine ⟨hlen, ⟨b, bc, hb, hbc, hs, hsu⟩, hheader, ?_, ?_, ?_, ?_⟩
+  · refine ⟨_, by rw [hlen]; simpa using n3, ?_⟩
+    exact ⟨by simp [trailingBranch], rfl⟩
+  · unfold TracePaths.curLen; rw [hlen]; simp [n3]
+  · exact ext_of_pointwise bs _ (bs.length - 1) b hb ho hsame ⟨bc, hbc, [], by simp [hs]⟩
+  · intro i hi; exact hsame i (by omega) (by omega)
+
+-- ---------------------------------------------------------------------------- the main induction
+
+theorem pathOut_prepend {bs0 bs1 : List Block} {ps1 : List Nat} {i₀ a₀ : Nat} {tr₀ : List Loc} {ds₀ : List Bool}
+    {c a : Nat} {r r' : Run} (hx : Ext bs0 bs1)
+    (hpre : Path bs0 i₀ a₀ tr₀ ds₀ r.ds (.at c a)) (h : PathOut bs1 ps1 c a [] r.ds r r') :
+    PathOut bs1 ps1 i₀ a₀ tr₀ ds₀ r r' := by
+  obtain ⟨tr, h1, h2, h3⟩ := h
+  have hpre' := hpre.mono hx
+  refine ⟨tr, h1, ?_, ?_⟩
+  · intro hs
+    obtain ⟨e, hp, hex⟩ := h2 hs
+    exact ⟨e, hpre'.trans (by simpa using hp), hex⟩
+  · intro hs
+    obtain ⟨tr', ds'', e, hp, hpf⟩ := h3 hs
+    refine ⟨tr₀ ++ tr', ds'', e, hpre'.trans hp, ?_⟩
+    simp only [List.nil_append] at hpf
+    exact (List.prefix_append_right_inj tr₀).mpr hpf
+
+/-- what `visit` establishes: the block facts and, for every run, a matching path from the end of the
+    current block -/
+def Goal (rets : List Loc) (fuelE : Nat) (s : Stmt) (bs bs1 : List Block) (ps1 : List Nat) : Prop :=
+  Res bs bs1 ps1 ∧
+  ∀ r : Run, r.stop = false → PathOut bs1 ps1 (bs.length - 1) (curLen bs) [] r.ds r (exec rets fuelE s r)
+
+structure ResL (bs : List Block) (ps : List Nat) (bs1 : List Block) (ps1 : List Nat) : Prop where
+  ext : Ext bs bs1
+  len : bs.length ≤ bs1.length
+  frame : ∀ i, i + 1 < bs.length → i ∉ ps → bs1[i]? = bs[i]?
+  cur : ps1 = [] → CurOpen bs1
+  pend : ∀ p, p ∈ ps1 → OpenAt bs1 p
+  ge : ∀ p, p ∈ ps1 → bs.length - 1 ≤ p ∨ p ∈ ps
+
+def GoalL (rets : List Loc) (fuelE : Nat) (cs : Stmts) (bs : List Block) (ps : List Nat) (bs1 : List Block) (ps1 : List Nat) : Prop :=
+  ResL bs ps bs1 ps1 ∧
+  ∀ (r : Run), r.stop = false → ∀ (i₀ a₀ : Nat) (tr₀ : List Loc) (ds₀ : List Bool) (e₀ : End),
+    Path bs i₀ a₀ tr₀ ds₀ r.ds e₀ → ExitOf bs ps e₀ → PathOut bs1 ps1 i₀ a₀ tr₀ ds₀ r (execList rets fuelE cs r)
+
+theorem curLen_eq {bs : List Block} {b : Block} (hb : bs[bs.length - 1]? = some b) : curLen bs = b.stmts.length := by
+  simp [curLen, hb]
+
+/-- the case of a statement that is not a control statement -/
+theorem goal_simple (rets : List Loc) (fuelE : Nat) (loc : Loc) (bs : List Block) (hpos : 0 < bs.length) (hc : CurOpen bs) :
+    Goal rets fuelE (.simple loc) bs (appendStmt bs (.simple loc)) [] := by
+  obtain ⟨b, hb, ho⟩ := hc
+  have hlen : (appendStmt bs (IStmt.simple loc)).length = bs.length := length_appendStmt _ _
+  have hget : (appendStmt bs (IStmt.simple loc))[bs.length - 1]? = some { b with stmts := b.stmts ++ [IStmt.simple loc] } := by
+    rw [appendStmt_get, hb]; simp
+  have hget' : (appendStmt bs (IStmt.simple loc))[(appendStmt bs (IStmt.simple loc)).length - 1]? =
+      some { b with stmts := b.stmts ++ [IStmt.simple loc] } := by rw [hlen]; exact hget
+  have hcur : CurOpen (appendStmt bs (IStmt.simple loc)) := by
+    refine ⟨{ b with stmts := b.stmts ++ [IStmt.simple loc] }, hget', ?_, ho.2⟩
+    simp [trailingBranch]
+  have hres : Res bs (appendStmt bs (IStmt.simple loc)) [] := by
+    refine ⟨ext_appendStmt bs _ b hb ho, by rw [hlen]; exact Nat.le_refl _, ?_, fun _ => hcur, ?_, ?_⟩
+    · intro i hi
+      rw [appendStmt_get]
+      have : i ≠ bs.length - 1 := by omega
+      cases bs[i]? <;> simp [this]
+    · intro p hp; cases hp
+    · intro p hp; cases hp
+  refine ⟨hres, ?_⟩
+  intro r hr
+  have hpath : Path (appendStmt bs (IStmt.simple loc)) (bs.length - 1) (curLen bs) [loc] r.ds r.ds
+      (.at (bs.length - 1) (curLen bs + 1)) := by
+    refine .simple _ _ _ loc [] r.ds r.ds _ hget ?_ (.here _ _ _)
+    rw [curLen_eq hb]; simp
+  have hexit : ExitOf (appendStmt bs (IStmt.simple loc)) [] (.at (bs.length - 1) (curLen bs + 1)) := by
+    left
+    refine ⟨rfl, ?_⟩
+    rw [curLen_eq hget', curLen_eq hb, hlen]; simp
+  unfold exec
+  simp only [hr, Bool.false_eq_true, if_false]
+  refine ⟨[loc], rfl, ?_, ?_⟩
+  · intro _; exact ⟨_, by simpa using hpath, hexit⟩
+  · intro _; exact ⟨[loc], r.ds, _, hpath, by simp⟩
+
+theorem insertSorted_ne_nil (x : Nat) (l : List Nat) : insertSorted x l ≠ [] := by
+  cases l with
+  | nil => simp [insertSorted]
+  | cons y ys => unfold insertSorted; split <;> (try split) <;> simp
+
+theorem exitOf_mono {bs : List Block} {ps ps' : List Nat} {e : End} (h : ExitOf bs ps e) (hne : ps ≠ [])
+    (hsub : ∀ p, p ∈ ps → p ∈ ps') : ExitOf bs ps' e := by
+  rcases h with ⟨hps, _⟩ | ⟨p, b, hp, hb, hcase⟩
+  · exact absurd hps hne
+  · exact Or.inr ⟨p, b, hsub p hp, hb, hcase⟩
+
+theorem orLast_ge {ps : List Nat} {bs : List Block} {c : Nat} (h : ∀ p, p ∈ ps → c ≤ p) (hl : c ≤ bs.length - 1) :
+    ∀ p, p ∈ orLast ps bs → c ≤ p := by
+  intro p hp
+  unfold orLast at hp
+  split at hp
+  · simp at hp; omega
+  · exact h p hp
+
+theorem goal_ite (rets : List Loc) (fuelE : Nat) (loc : Loc) (thn : Stmt) (d : Nat) (bs : List Block)
+    (hpos : 0 < bs.length) (hc : CurOpen bs) (bs1 : List Block) (ifPs : List Nat)
+    (hthn : Goal rets fuelE thn (itePre loc d bs) bs1 ifPs) :
+    Goal rets fuelE (.ite loc thn) bs bs1 (insertSorted (bs.length - 1) (orLast ifPs bs1)) := by
+  have P := itePre_facts bs loc d hpos hc
+  obtain ⟨hres, hpaths⟩ := hthn
+  obtain ⟨b, bc, hb, hbc, hs, hsu⟩ := P.cond
+  have hlen1 : bs.length + 1 ≤ bs1.length := by have := hres.len; rw [P.len] at this; exact this
+  have hbc1 : bs1[bs.length - 1]? = some bc := by
+    rw [hres.frame (bs.length - 1) (by rw [P.len]; omega)]; exact hbc
+  have hbo : BranchOpen (bs.length - 1) bc := ⟨b.stmts, loc, hs, hsu⟩
+  have hopL := openAt_orLast hres.pend hres.cur
+  have hres' : Res bs bs1 (insertSorted (bs.length - 1) (orLast ifPs bs1)) := by
+    refine ⟨P.ext.trans hres.ext, by omega, ?_, fun h => absurd h (insertSorted_ne_nil _ _), ?_, ?_⟩
+    · intro i hi
+      rw [hres.frame i (by rw [P.len]; omega), P.frame i hi]
+    · intro p hp
+      rcases (mem_insertSorted p _ _).mp hp with h | h
+      · subst h; exact ⟨bc, hbc1, Or.inr ⟨hbo, by omega⟩⟩
+      · exact hopL p h
+    · intro p hp
+      rcases (mem_insertSorted p _ _).mp hp with h | h
+      · omega
+      · have := orLast_ge (c := bs.length - 1) (fun q hq => by have := hres.ge q hq; rw [P.len] at this; omega) (by omega) p h
+        exact this
+  refine ⟨hres', ?_⟩
+  intro r hr
+  have ha : curLen bs = b.stmts.length := curLen_eq hb
+  have hstmt : bc.stmts[curLen bs]? = some (IStmt.branch loc (bs.length - 1 + 1) none) := by rw [hs, ha]; simp
+  have hlast : curLen bs + 1 = bc.stmts.length := by rw [hs, ha]; simp
+  unfold exec
+  simp only [hr, Bool.false_eq_true, if_false]
+  cases hds : r.ds with
+  | nil =>
+    simp only
+    refine ⟨[], by simp, ?_, ?_⟩
+    · intro h; cases h
+    · intro _; exact ⟨[], [], _, .here _ _ _, by simp⟩
+  | cons dd ds' =>
+    simp only
+    cases dd with
+    | true =>
+      simp only [if_true]
+      have h1 := hpaths ⟨r.trace ++ [loc], ds', false⟩ rfl
+      rw [P.len, P.curLen] at h1
+      have hidx : bs.length + 1 - 1 = bs.length - 1 + 1 := by omega
+      rw [hidx] at h1
+      obtain ⟨tr, t1, t2, t3⟩ := h1
+      simp only [List.nil_append] at t2 t3
+      refine ⟨loc :: tr, by rw [t1]; simp, ?_, ?_⟩
+      · intro hs'
+        obtain ⟨e, hp, hex⟩ := t2 hs'
+        refine ⟨e, ?_, exitOf_mono (exitOf_orLast hex hres.cur) (orLast_ne _ _) (fun p hp' => (mem_insertSorted p _ _).mpr (Or.inr hp'))⟩
+        simp only [List.nil_append]
+        exact .brT _ _ bc loc _ none tr ds' _ e hbc1 hstmt hlast (by simpa using hp)
+      · intro hs'
+        obtain ⟨tr', ds'', e, hp, hpf⟩ := t3 hs'
+        refine ⟨loc :: tr', ds'', e, .brT _ _ bc loc _ none tr' ds' ds'' e hbc1 hstmt hlast (by simpa using hp), ?_⟩
+        simpa using hpf
+    | false =>
+      simp only [Bool.false_eq_true, if_false]
+      refine ⟨[loc], rfl, ?_, ?_⟩
+      · intro _
+        refine ⟨.fe (bs.length - 1), by simpa using Path.brF _ _ bc loc _ none ds' hbc1 hstmt hlast, ?_⟩
+        exact Or.inr ⟨bs.length - 1, bc, (mem_insertSorted _ _ _).mpr (Or.inl rfl), hbc1, Or.inr ⟨hbo, rfl⟩⟩
+      · intro hs'; simp [hr] at hs'
+
+theorem exitOf_transfer {bs bs' : List Block} {ps : List Nat} {e : End} (h : ExitOf bs ps e) (hne : ps ≠ [])
+    (hsame : ∀ p, p ∈ ps → bs'[p]? = bs[p]?) : ExitOf bs' ps e := by
+  rcases h with ⟨hps, _⟩ | ⟨p, b, hp, hb, hcase⟩
+  · exact absurd hps hne
+  · exact Or.inr ⟨p, b, hp, by rw [hsame p hp]; exact hb, hcase⟩
+
+theorem openAt_transfer {bs bs' : List Block} {p : Nat} (h : OpenAt bs p) (hsame : bs'[p]? = bs[p]?)
+    (hlen : bs.length ≤ bs'.length) : OpenAt bs' p := by
+  obtain ⟨b, hb, hc⟩ := h
+  refine ⟨b, by rw [hsame]; exact hb, ?_⟩
+  rcases hc with h1 | ⟨h1, h2⟩
+  · exact Or.inl h1
+  · exact Or.inr ⟨h1, by omega⟩
+
+/-- the blocks before the else-case: the open false edge of the condition block is resolved to the new block -/
+structure ElsePre (bs1 bsE : List Block) (c : Nat) (loc : Loc) (init : List IStmt) : Prop where
+  len : bsE.length = bs1.length + 1
+  cond : ∃ bcE, bsE[c]? = some bcE ∧ bcE.stmts = init ++ [IStmt.branch loc (c + 1) (some bs1.length)]
+  cur : CurOpen bsE
+  curLen : curLen bsE = 0
+  ext : Ext bs1 bsE
+  frame : ∀ i, i < bs1.length → i ≠ c → bsE[i]? = bs1[i]?
+
+theorem elsePre_facts (bs1 : List Block) (c d : Nat) (bc : Block) (loc : Loc) (init : List IStmt)
+    (hbc : bs1[c]? = some bc) (hs : bc.stmts = init ++ [IStmt.branch loc (c + 1) none]) (hsu : bc.succs = [c + 1])
+    (hlt : c + 1 < bs1.length) : ElsePre bs1 (completeBlock bs1 [c] d) c loc init := by
+  have hbo : BranchOpen c bc := ⟨init, loc, hs, hsu⟩
+  have hop : ∀ p, p ∈ [c] → OpenAt bs1 p := by
+    intro p hp; simp at hp; subst hp; exact ⟨bc, hbc, Or.inr ⟨hbo, hlt⟩⟩
+  have hlen : (completeBlock bs1 [c] d).length = bs1.length + 1 := length_completeBlock _ _ _
+  have hnew := completeBlock_get_new bs1 [c] d
+  refine ⟨hlen, ?_, ?_, ?_, ext_completeBlock bs1 [c] d hop, ?_⟩
+  · obtain ⟨init', l', hs1, hs2, _⟩ := completed_branch bs1.length [c] c bc hbo (by simp) hlt
+    refine ⟨_, by rw [completeBlock_get_lt bs1 [c] d c (by omega), hbc]; rfl, ?_⟩
+    rw [hs] at hs1
+    have := List.append_inj' hs1 rfl
+    obtain ⟨e1, e2⟩ := this
+    simp only [List.cons.injEq, IStmt.branch.injEq, and_true, true_and] at e2
+    rw [hs2, ← e1, ← e2]
+  · refine ⟨_, by rw [hlen]; simpa using hnew, ?_⟩
+    exact ⟨by simp [trailingBranch], rfl⟩
+  · unfold TracePaths.curLen; rw [hlen]; simp [hnew]
+  · intro i hi hne
+    rw [completeBlock_get_lt bs1 [c] d i hi]
+    cases hbi : bs1[i]? with
+    | none => rfl
+    | some bi => simp only [Option.map_some]; rw [completed_other _ _ _ _ (by simpa using hne)]
+
+theorem goal_iteElse (rets : List Loc) (fuelE : Nat) (loc : Loc) (thn els : Stmt) (d : Nat) (bs : List Block)
+    (hpos : 0 < bs.length) (hc : CurOpen bs) (bs1 : List Block) (ifPs : List Nat)
+    (hthn : Goal rets fuelE thn (itePre loc d bs) bs1 ifPs) (bs2 : List Block) (elPs : List Nat)
+    (hels : Goal rets fuelE els (completeBlock bs1 [bs.length - 1] d) bs2 elPs) :
+    Goal rets fuelE (.iteElse loc thn els) bs bs2 (union (orLast ifPs bs1) (orLast elPs bs2)) := by
+  have P := itePre_facts bs loc d hpos hc
+  obtain ⟨hres1, hpaths1⟩ := hthn
+  obtain ⟨hres2, hpaths2⟩ := hels
+  obtain ⟨b, bc, hb, hbc, hs, hsu⟩ := P.cond
+  have hlen1 : bs.length + 1 ≤ bs1.length := by have := hres1.len; rw [P.len] at this; exact this
+  have hbc1 : bs1[bs.length - 1]? = some bc := by
+    rw [hres1.frame (bs.length - 1) (by rw [P.len]; omega)]; exact hbc
+  have E := elsePre_facts bs1 (bs.length - 1) d bc loc b.stmts hbc1 hs hsu (by omega)
+  obtain ⟨bcE, hbcE, hsE⟩ := E.cond
+  have hlen2 : bs1.length + 1 ≤ bs2.length := by have := hres2.len; rw [E.len] at this; exact this
+  have hbc2 : bs2[bs.length - 1]? = some bcE := by
+    rw [hres2.frame (bs.length - 1) (by rw [E.len]; omega)]; exact hbcE
+  have hx12 : Ext bs1 bs2 := E.ext.trans hres2.ext
+  -- pending exits of the if-case are untouched by the else-case
+  have hgeL := orLast_ge (c := bs.length - 1 + 1) (bs := bs1) (ps := ifPs)
+    (fun q hq => by have := hres1.ge q hq; rw [P.len] at this; omega) (by omega)
+  have hopL1 := openAt_orLast hres1.pend hres1.cur
+  have hsame1 : ∀ p, p ∈ orLast ifPs bs1 → bs2[p]? = bs1[p]? := by
+    intro p hp
+    obtain ⟨bp, hbp, _⟩ := hopL1 p hp
+    have hplt : p < bs1.length := (List.getElem?_eq_some_iff.mp hbp).1
+    have := hgeL p hp
+    rw [hres2.frame p (by rw [E.len]; omega), E.frame p hplt (by omega)]
+  have hopL2 := openAt_orLast hres2.pend hres2.cur
+  have hres' : Res bs bs2 (union (orLast ifPs bs1) (orLast elPs bs2)) := by
+    refine ⟨P.ext.trans (hres1.ext.trans hx12), by omega, ?_, ?_, ?_, ?_⟩
+    · intro i hi
+      rw [hres2.frame i (by rw [E.len]; omega), E.frame i (by omega) (by omega),
+        hres1.frame i (by rw [P.len]; omega), P.frame i hi]
+    · intro h
+      exfalso
+      cases hol : orLast ifPs bs1 with
+      | nil => exact orLast_ne _ _ hol
+      | cons q qs =>
+        have : q ∈ union (orLast ifPs bs1) (orLast elPs bs2) := (mem_union q _ _).mpr (Or.inl (by rw [hol]; exact List.mem_cons_self))
+        rw [h] at this; cases this
+    · intro p hp
+      rcases (mem_union p _ _).mp hp with h | h
+      · exact openAt_transfer (hopL1 p h) (hsame1 p h) (by omega)
+      · exact hopL2 p h
+    · intro p hp
+      rcases (mem_union p _ _).mp hp with h | h
+      · have := hgeL p h; omega
+      · have := orLast_ge (c := bs.length - 1) (bs := bs2) (ps := elPs)
+          (fun q hq => by have := hres2.ge q hq; rw [E.len] at this; omega) (by omega) p h
+        exact this
+  refine ⟨hres', ?_⟩
+  intro r hr
+  have ha : curLen bs = b.stmts.length := curLen_eq hb
+  have hstmt : bcE.stmts[curLen bs]? = some (IStmt.branch loc (bs.length - 1 + 1) (some bs1.length)) := by rw [hsE, ha]; simp
+  have hlast : curLen bs + 1 = bcE.stmts.length := by rw [hsE, ha]; simp
+  unfold exec
+  simp only [hr, Bool.false_eq_true, if_false]
+  cases hds : r.ds with
+  | nil =>
+    simp only
+    refine ⟨[], by simp, ?_, ?_⟩
+    · intro h; cases h
+    · intro _; exact ⟨[], [], _, .here _ _ _, by simp⟩
+  | cons dd ds' =>
+    simp only
+    cases dd with
+    | true =>
+      simp only [if_true]
+      have h1 := hpaths1 ⟨r.trace ++ [loc], ds', false⟩ rfl
+      rw [P.len, P.curLen] at h1
+      have hidx : bs.length + 1 - 1 = bs.length - 1 + 1 := by omega
+      rw [hidx] at h1
+      obtain ⟨tr, t1, t2, t3⟩ := h1
+      simp only [List.nil_append] at t2 t3
+      refine ⟨loc :: tr, by rw [t1]; simp, ?_, ?_⟩
+      · intro hs'
+        obtain ⟨e, hp, hex⟩ := t2 hs'
+        refine ⟨e, ?_, ?_⟩
+        · simp only [List.nil_append]
+          exact .brT _ _ bcE loc _ _ tr ds' _ e hbc2 hstmt hlast (by simpa using hp.mono hx12)
+        · exact exitOf_mono (exitOf_transfer (exitOf_orLast hex hres1.cur) (orLast_ne _ _) hsame1) (orLast_ne _ _)
+            (fun p hp' => (mem_union p _ _).mpr (Or.inl hp'))
+      · intro hs'
+        obtain ⟨tr', ds'', e, hp, hpf⟩ := t3 hs'
+        refine ⟨loc :: tr', ds'', e, .brT _ _ bcE loc _ _ tr' ds' ds'' e hbc2 hstmt hlast (by simpa using hp.mono hx12), ?_⟩
+        simpa using hpf
+    | false =>
+      simp only [Bool.false_eq_true, if_false]
+      have h1 := hpaths2 ⟨r.trace ++ [loc], ds', false⟩ rfl
+      rw [E.len, E.curLen] at h1
+      have hidx : bs1.length + 1 - 1 = bs1.length := by omega
+      rw [hidx] at h1
+      obtain ⟨tr, t1, t2, t3⟩ := h1
+      simp only [List.nil_append] at t2 t3
+      refine ⟨loc :: tr, by rw [t1]; simp, ?_, ?_⟩
+      · intro hs'
+        obtain ⟨e, hp, hex⟩ := t2 hs'
+        refine ⟨e, ?_, ?_⟩
+        · simp only [List.nil_append]
+          exact .brFgo _ _ bcE loc _ _ bs1.length tr ds' _ e hbc2 hstmt hlast (by simp [falseTgt]) (by simpa using hp)
+        · exact exitOf_mono (exitOf_orLast hex hres2.cur) (orLast_ne _ _) (fun p hp' => (mem_union p _ _).mpr (Or.inr hp'))
+      · intro hs'
+        obtain ⟨tr', ds'', e, hp, hpf⟩ := t3 hs'
+        refine ⟨loc :: tr', ds'', e, .brFgo _ _ bcE loc _ _ bs1.length tr' ds' ds'' e hbc2 hstmt hlast (by simp [falseTgt]) (by simpa using hp), ?_⟩
+        simpa using hpf
+
+theorem edged_walk_same (fs : List Nat) (h i : Nat) (b : Block) (hi : i ∉ fs) :
+    (edged fs h i b).stmts = b.stmts ∧ (edged fs h i b).succs = b.succs := by
+  refine ⟨edged_stmts fs h i b, ?_⟩
+  rw [edged_succs]
+  have : fs.contains i = false := by simpa using hi
+  rw [this]; rfl
+
+theorem edged_other (fs : List Nat) (h i : Nat) (b : Block) (hi : i ∉ fs) (hh : i ≠ h) : edged fs h i b = b := by
+  unfold edged
+  have : fs.contains i = false := by simpa using hi
+  simp only [this, Bool.false_eq_true, if_false, if_neg hh]
+
+theorem goal_while (rets : List Loc) (fuelE : Nat) (loc : Loc) (body : Stmt) (d : Nat) (bs : List Block)
+    (hpos : 0 < bs.length) (hc : CurOpen bs) (bs' : List Block) (ps : List Nat)
+    (hbody : Goal rets fuelE body (whilePre loc d bs) bs' ps) :
+    Goal rets fuelE (.while loc body) bs (addEdges bs' (orLast ps bs') (bs.length - 1 + 1)) [bs.length - 1 + 1] := by
+  have W := whilePre_facts bs loc d hpos hc
+  obtain ⟨hres, hpaths⟩ := hbody
+  obtain ⟨b, bcW, hb, hbcW, hsW, hsuW⟩ := W.before
+  obtain ⟨bh, hbh, hsh, hsuh⟩ := W.header
+  have hh : bs.length - 1 + 1 = bs.length := by omega
+  rw [hh]
+  have hlen' : bs.length + 2 ≤ bs'.length := by have := hres.len; rw [W.len] at this; exact this
+  have hbc' : bs'[bs.length - 1]? = some bcW := by
+    rw [hres.frame (bs.length - 1) (by rw [W.len]; omega)]; exact hbcW
+  have hbh' : bs'[bs.length]? = some bh := by
+    rw [hres.frame bs.length (by rw [W.len]; omega)]; exact hbh
+  have hopF := openAt_orLast hres.pend hres.cur
+  have hgeF := orLast_ge (c := bs.length + 1) (bs := bs') (ps := ps)
+    (fun q hq => by have := hres.ge q hq; rw [W.len] at this; omega) (by omega)
+  have hxF : Ext bs' (addEdges bs' (orLast ps bs') bs.length) := ext_addEdges bs' _ _ hopF
+  have hlenF : (addEdges bs' (orLast ps bs') bs.length).length = bs'.length := length_addEdges _ _ _
+  have hnc : bs.length - 1 ∉ orLast ps bs' := fun hm => by have := hgeF _ hm; omega
+  have hnh : bs.length ∉ orLast ps bs' := fun hm => by have := hgeF _ hm; omega
+  -- the block before the loop and the header in the final graph
+  have hbcF : ∃ bcF, (addEdges bs' (orLast ps bs') bs.length)[bs.length - 1]? = some bcF ∧ bcF.stmts = b.stmts ∧ bcF.succs = [bs.length] := by
+    refine ⟨_, by rw [addEdges_get, hbc']; rfl, ?_, ?_⟩
+    · rw [(edged_walk_same _ _ _ _ hnc).1, hsW]
+    · rw [(edged_walk_same _ _ _ _ hnc).2, hsuW]
+  have hbhF : ∃ bhF, (addEdges bs' (orLast ps bs') bs.length)[bs.length]? = some bhF ∧
+      bhF.stmts = [IStmt.branch loc (bs.length + 1) none] ∧ bhF.succs = [bs.length + 1] := by
+    refine ⟨_, by rw [addEdges_get, hbh']; rfl, ?_, ?_⟩
+    · rw [(edged_walk_same _ _ _ _ hnh).1, hsh]
+    · rw [(edged_walk_same _ _ _ _ hnh).2, hsuh]
+  obtain ⟨bcF, hgcF, hscF, hsucF⟩ := hbcF
+  obtain ⟨bhF, hghF, hshF, hsuhF⟩ := hbhF
+  have hboF : BranchOpen bs.length bhF := ⟨[], loc, by simpa using hshF, hsuhF⟩
+  have hres' : Res bs (addEdges bs' (orLast ps bs') bs.length) [bs.length] := by
+    refine ⟨W.ext.trans (hres.ext.trans hxF), by omega, ?_, ?_, ?_, ?_⟩
+    rotate_left
+    · intro h; cases h
+    rotate_right
+    · intro i hi
+      rw [addEdges_get]
+      have hni : i ∉ orLast ps bs' := fun hm => by have := hgeF _ hm; omega
+      have : bs'[i]? = bs[i]? := by rw [hres.frame i (by rw [W.len]; omega), W.frame i hi]
+      rw [this]
+      cases hbi : bs[i]? with
+      | none => rfl
+      | some bi => simp only [Option.map_some]; rw [edged_other _ _ _ _ hni (by omega)]
+    · intro p hp
+      simp only [List.mem_singleton] at hp; subst hp
+      exact ⟨bhF, hghF, Or.inr ⟨hboF, by omega⟩⟩
+    · intro p hp
+      simp only [List.mem_singleton] at hp; omega
+  refine ⟨hres', ?_⟩
+  -- the loop, from the header
+  have hloop : ∀ (f : Nat) (r : Run), r.stop = false →
+      PathOut (addEdges bs' (orLast ps bs') bs.length) [bs.length] bs.length 0 [] r.ds r (Trace.loop (exec rets fuelE body) loc f r) := by
+    intro f
+    induction f with
+    | zero =>
+      intro r hr
+      unfold Trace.loop
+      refine ⟨[], by simp, ?_, ?_⟩
+      · intro h; cases h
+      · intro _; exact ⟨[], r.ds, _, .here _ _ _, by simp⟩
+    | succ f ih =>
+      intro r hr
+      unfold Trace.loop
+      simp only [hr, Bool.false_eq_true, if_false]
+      cases hds : r.ds with
+      | nil =>
+        simp only
+        refine ⟨[], by simp, ?_, ?_⟩
+        · intro h; cases h
+        · intro _; exact ⟨[], [], _, .here _ _ _, by simp⟩
+      | cons dd ds' =>
+        simp only
+        have hstmt : bhF.stmts[0]? = some (IStmt.branch loc (bs.length + 1) none) := by rw [hshF]; rfl
+        have hlast : 0 + 1 = bhF.stmts.length := by rw [hshF]; rfl
+        cases dd with
+        | false =>
+          simp only [Bool.false_eq_true, if_false]
+          refine ⟨[loc], rfl, ?_, ?_⟩
+          · intro _
+            refine ⟨.fe bs.length, by simpa using Path.brF _ _ bhF loc _ none ds' hghF hstmt hlast, ?_⟩
+            exact Or.inr ⟨bs.length, bhF, by simp, hghF, Or.inr ⟨hboF, rfl⟩⟩
+          · intro hs'; simp at hs'
+        | true =>
+          simp only [if_true]
+          have h1 := hpaths ⟨r.trace ++ [loc], ds', false⟩ rfl
+          rw [W.len, W.curLen] at h1
+          have hidx : bs.length + 2 - 1 = bs.length + 1 := by omega
+          rw [hidx] at h1
+          obtain ⟨trb, t1, t2, t3⟩ := h1
+          simp only [List.nil_append] at t2 t3
+          cases hst : (exec rets fuelE body ⟨r.trace ++ [loc], ds', false⟩).stop with
+          | true =>
+            rw [loop_stop _ loc f _ hst]
+            refine ⟨loc :: trb, by rw [t1]; simp, ?_, ?_⟩
+            · intro hs'; rw [hst] at hs'; cases hs'
+            · intro _
+              obtain ⟨tr', ds'', e, hp, hpf⟩ := t3 hst
+              refine ⟨loc :: tr', ds'', e, .brT _ _ bhF loc _ none tr' ds' ds'' e hghF hstmt hlast (hp.mono hxF), ?_⟩
+              simpa using hpf
+          | false =>
+            obtain ⟨e, hp, hex⟩ := t2 hst
+            have hconn := connect_edges bs' (orLast ps bs') bs.length (orLast_ne _ _) hopF
+              (fun p hp' => by have := hgeF p hp'; omega) (exitOf_orLast hex hres.cur) hp
+            obtain ⟨tr2, u1, u2, u3⟩ := ih (exec rets fuelE body ⟨r.trace ++ [loc], ds', false⟩) hst
+            simp only [List.nil_append] at u2 u3
+            have hhead : Path (addEdges bs' (orLast ps bs') bs.length) bs.length 0 (loc :: trb) (true :: ds')
+                (exec rets fuelE body ⟨r.trace ++ [loc], ds', false⟩).ds (.at bs.length 0) :=
+              .brT _ _ bhF loc _ none trb ds' _ _ hghF hstmt hlast hconn
+            refine ⟨loc :: trb ++ tr2, by rw [u1, t1]; simp, ?_, ?_⟩
+            · intro hs'
+              obtain ⟨e2, hp2, hex2⟩ := u2 hs'
+              exact ⟨e2, by simpa using hhead.trans hp2, hex2⟩
+            · intro hs'
+              obtain ⟨tr', ds'', e2, hp2, hpf⟩ := u3 hs'
+              refine ⟨(loc :: trb) ++ tr', ds'', e2, hhead.trans hp2, ?_⟩
+              simp only [List.nil_append, List.cons_append]
+              exact List.cons_prefix_cons.mpr ⟨rfl, (List.prefix_append_right_inj trb).mpr hpf⟩
+  intro r hr
+  have ha : curLen bs = b.stmts.length := curLen_eq hb
+  have hfall : Path (addEdges bs' (orLast ps bs') bs.length) (bs.length - 1) (curLen bs) [] r.ds r.ds (.at bs.length 0) := by
+    refine .fall _ _ bcF bs.length [] r.ds r.ds _ hgcF (by rw [hscF, ha]) ?_ hsucF (.here _ _ _)
+    obtain ⟨b', hb', ho⟩ := hc
+    rw [hb] at hb'; cases hb'
+    simpa [trailingBranch, hscF] using ho.1
+  unfold exec
+  exact pathOut_prepend (Ext.refl _) hfall (hloop fuelE r hr)
+
+theorem exitOf_nil {bs : List Block} {e : End} (h : ExitOf bs [] e) : e = .at (bs.length - 1) (curLen bs) := by
+  rcases h with ⟨_, he⟩ | ⟨p, b, hp, _⟩
+  · exact he
+  · cases hp
+
+theorem goal_of_goalL (rets : List Loc) (fuelE : Nat) (cs : Stmts) (s : Stmt) (bs bs1 : List Block) (ps1 : List Nat)
+    (hexec : ∀ r, exec rets fuelE s r = execList rets fuelE cs r) (h : GoalL rets fuelE cs bs [] bs1 ps1) :
+    Goal rets fuelE s bs bs1 ps1 := by
+  obtain ⟨hres, hpaths⟩ := h
+  refine ⟨⟨hres.ext, hres.len, fun i hi => hres.frame i hi (by simp), hres.cur, hres.pend, ?_⟩, ?_⟩
+  · intro p hp
+    rcases hres.ge p hp with h | h
+    · exact h
+    · cases h
+  · intro r hr
+    rw [hexec]
+    exact hpaths r hr _ _ [] r.ds _ (.here _ _ _) (Or.inl ⟨rfl, rfl⟩)
+
+/-- the blocks a statement of a block starts from: the pending exits are connected to a fresh block -/
+theorem start_block (bs : List Block) (ps : List Nat) (d : Nat) (hpos : 0 < bs.length) (hcur : ps = [] → CurOpen bs)
+    (hpend : ∀ p, p ∈ ps → OpenAt bs p) :
+    let bs0 := if ps.isEmpty then bs else completeBlock bs ps d
+    0 < bs0.length ∧ CurOpen bs0 ∧ Ext bs bs0 ∧ bs.length ≤ bs0.length ∧
+    (∀ i, i < bs.length → i ∉ ps → bs0[i]? = bs[i]?) ∧
+    (∀ (i₀ a₀ : Nat) (tr₀ : List Loc) (ds₀ ds : List Bool) (e₀ : End), Path bs i₀ a₀ tr₀ ds₀ ds e₀ → ExitOf bs ps e₀ →
+      Path bs0 i₀ a₀ tr₀ ds₀ ds (.at (bs0.length - 1) (curLen bs0))) := by
+  intro bs0
+  by_cases hps : ps = []
+  · have : bs0 = bs := by simp [bs0, hps]
+    rw [this]
+    refine ⟨hpos, hcur hps, Ext.refl bs, Nat.le_refl _, fun _ _ _ => rfl, ?_⟩
+    intro i₀ a₀ tr₀ ds₀ ds e₀ hp hex
+    subst hps
+    rw [exitOf_nil hex] at hp; exact hp
+  · have hne : ps.isEmpty = false := by simpa using hps
+    have h0 : bs0 = completeBlock bs ps d := by simp [bs0, hne]
+    rw [h0]
+    have hlen : (completeBlock bs ps d).length = bs.length + 1 := length_completeBlock _ _ _
+    have hnew := completeBlock_get_new bs ps d
+    refine ⟨by omega, ?_, ext_completeBlock bs ps d hpend, by omega, ?_, ?_⟩
+    · refine ⟨_, by rw [hlen]; simpa using hnew, ?_⟩
+      exact ⟨by simp [trailingBranch], rfl⟩
+    · intro i hi hni
+      rw [completeBlock_get_lt bs ps d i hi]
+      cases hbi : bs[i]? with
+      | none => rfl
+      | some bi => simp only [Option.map_some]; rw [completed_other _ _ _ _ hni]
+    · intro i₀ a₀ tr₀ ds₀ ds e₀ hp hex
+      have hcl : TracePaths.curLen (completeBlock bs ps d) = 0 := by
+        unfold TracePaths.curLen; rw [hlen]; simp [hnew]
+      rw [hcl, hlen]
+      simpa using connect_complete bs ps d hps hpend hex hp
+
+mutual
+theorem visit_paths (rets : List Loc) (fuelE : Nat) : ∀ (s : Stmt) (d : Nat) (bs : List Block), 0 < bs.length → CurOpen bs →
+    Holds (Goal rets fuelE s bs) (visit s d bs)
+  | .simple loc, d, bs, hp, hc => by rw [visit]; exact goal_simple rets fuelE loc bs hp hc
+  | .init cs, d, bs, hp, hc => by
+      rw [visit]
+      apply holds_mono (visitInit_paths rets fuelE cs d bs hp hc)
+      intro bs1 ps1 g
+      exact goal_of_goalL rets fuelE cs (.init cs) bs bs1 ps1 (fun r => by rw [exec]) g
+  | .block cs, d, bs, hp, hc => by
+      rw [visit]
+      apply holds_mono (visitBlock_paths rets fuelE cs d bs [] hp (fun _ => hc) (fun p h => (List.not_mem_nil h).elim))
+      intro bs1 ps1 g
+      exact goal_of_goalL rets fuelE cs (.block cs) bs bs1 ps1 (fun r => by rw [exec]) g
+  | .while loc body, d, bs, hp, hc => by
+      rw [visit]
+      have W := whilePre_facts bs loc d hp hc
+      apply holds_andThen (visit_paths rets fuelE body (d + 1) (whilePre loc d bs) (by rw [W.len]; omega) W.cur)
+      intro bs' ps g
+      exact goal_while rets fuelE loc body d bs hp hc bs' ps g
+  | .ite loc thn, d, bs, hp, hc => by
+      rw [visit]
+      have P := itePre_facts bs loc d hp hc
+      apply holds_andThen (visit_paths rets fuelE thn d (itePre loc d bs) (by rw [P.len]; omega) P.cur)
+      intro bs1 ifPs g
+      exact goal_ite rets fuelE loc thn d bs hp hc bs1 ifPs g
+  | .iteElse loc thn els, d, bs, hp, hc => by
+      rw [visit]
+      have P := itePre_facts bs loc d hp hc
+      apply holds_andThen (visit_paths rets fuelE thn d (itePre loc d bs) (by rw [P.len]; omega) P.cur)
+      intro bs1 ifPs g
+      obtain ⟨b, bc, hb, hbc, hs, hsu⟩ := P.cond
+      have hlen1 : bs.length + 1 ≤ bs1.length := by have := g.1.len; rw [P.len] at this; exact this
+      have hbc1 : bs1[bs.length - 1]? = some bc := by
+        rw [g.1.frame (bs.length - 1) (by rw [P.len]; omega)]; exact hbc
+      have E := elsePre_facts bs1 (bs.length - 1) d bc loc b.stmts hbc1 hs hsu (by omega)
+      apply holds_andThen (visit_paths rets fuelE els d (completeBlock bs1 [bs.length - 1] d) (by rw [E.len]; omega) E.cur)
+      intro bs2 elPs g2
+      exact goal_iteElse rets fuelE loc thn els d bs hp hc bs1 ifPs g bs2 elPs g2
+theorem visitBlock_paths (rets : List Loc) (fuelE : Nat) : ∀ (cs : Stmts) (d : Nat) (bs : List Block) (ps : List Nat),
+    0 < bs.length → (ps = [] → CurOpen bs) → (∀ p, p ∈ ps → OpenAt bs p) →
+    Holds (GoalL rets fuelE cs bs ps) (visitBlock cs d bs ps)
+  | .nil, d, bs, ps, hp, hcur, hpend => by
+      rw [visitBlock]
+      refine ⟨⟨Ext.refl bs, Nat.le_refl _, fun _ _ _ => rfl, hcur, hpend, fun p h => Or.inr h⟩, ?_⟩
+      intro r hr i₀ a₀ tr₀ ds₀ e₀ hpath hex
+      unfold execList
+      refine ⟨[], by simp, ?_, ?_⟩
+      · intro _; exact ⟨e₀, by simpa using hpath, hex⟩
+      · intro hs; rw [hr] at hs; cases hs
+  | .cons s rest, d, bs, ps, hp, hcur, hpend => by
+      rw [visitBlock]
+      obtain ⟨h0pos, h0cur, h0ext, h0len, h0frame, h0conn⟩ := start_block bs ps d hp hcur hpend
+      apply holds_andThen (visit_paths rets fuelE s d _ h0pos h0cur)
+      intro bs' ps' gs
+      obtain ⟨hress, hpathss⟩ := gs
+      have hpos' : 0 < bs'.length := by have := hress.len; omega
+      apply holds_mono (visitBlock_paths rets fuelE rest d bs' ps' hpos' hress.cur hress.pend)
+      intro bs1 ps1 gr
+      obtain ⟨hresr, hpathsr⟩ := gr
+      refine ⟨⟨h0ext.trans (hress.ext.trans hresr.ext), by have := hress.len; have := hresr.len; omega, ?_, hresr.cur, hresr.pend, ?_⟩, ?_⟩
+      · intro i hi hni
+        have hni' : i ∉ ps' := fun hm => by have := hress.ge i hm; omega
+        rw [hresr.frame i (by have := hress.len; omega) hni', hress.frame i (by omega), h0frame i (by omega) hni]
+      · intro p hp'
+        left
+        rcases hresr.ge p hp' with h | h
+        · have := hress.len; omega
+        · have := hress.ge p h; omega
+      · intro r hr i₀ a₀ tr₀ ds₀ e₀ hpath hex
+        have hstart := h0conn i₀ a₀ tr₀ ds₀ r.ds e₀ hpath hex
+        have hs1 := pathOut_prepend hress.ext hstart (hpathss r hr)
+        unfold execList
+        cases hst : (exec rets fuelE s r).stop with
+        | true =>
+          rw [execList_stop rets fuelE rest _ hst]
+          exact PathOut.mono hresr.ext hs1 hst ps1
+        | false =>
+          obtain ⟨trs, q1, q2, _⟩ := hs1
+          obtain ⟨es, hps, hexs⟩ := q2 hst
+          obtain ⟨tr2, w1, w2, w3⟩ := hpathsr (exec rets fuelE s r) hst i₀ a₀ (tr₀ ++ trs) ds₀ es hps hexs
+          refine ⟨trs ++ tr2, by rw [w1, q1]; simp, ?_, ?_⟩
+          · intro hs'
+            obtain ⟨e, hpe, hexe⟩ := w2 hs'
+            exact ⟨e, by simpa [List.append_assoc] using hpe, hexe⟩
+          · intro hs'
+            obtain ⟨tr', ds'', e, hpe, hpf⟩ := w3 hs'
+            exact ⟨tr', ds'', e, hpe, by simpa [List.append_assoc] using hpf⟩
+theorem visitInit_paths (rets : List Loc) (fuelE : Nat) : ∀ (cs : Stmts) (d : Nat) (bs : List Block),
+    0 < bs.length → CurOpen bs → Holds (GoalL rets fuelE cs bs []) (visitInit cs d bs)
+  | .nil, d, bs, hp, hc => by
+      rw [visitInit]
+      refine ⟨⟨Ext.refl bs, Nat.le_refl _, fun _ _ _ => rfl, fun _ => hc, fun p h => (List.not_mem_nil h).elim, fun p h => Or.inr h⟩, ?_⟩
+      intro r hr i₀ a₀ tr₀ ds₀ e₀ hpath hex
+      unfold execList
+      refine ⟨[], by simp, ?_, ?_⟩
+      · intro _; exact ⟨e₀, by simpa using hpath, hex⟩
+      · intro hs; rw [hr] at hs; cases hs
+  | .cons s rest, d, bs, hp, hc => by
+      rw [visitInit]
+      apply holds_andThen (visit_paths rets fuelE s d bs hp hc)
+      intro bs' ps' gs
+      obtain ⟨hress, hpathss⟩ := gs
+      have hpos' : 0 < bs'.length := by have := hress.len; omega
+      split
+      · rename_i hemp
+        have hps' : ps' = [] := by simpa using hemp
+        subst hps'
+        apply holds_mono (visitInit_paths rets fuelE rest d bs' hpos' (hress.cur rfl))
+        intro bs1 ps1 gr
+        obtain ⟨hresr, hpathsr⟩ := gr
+        refine ⟨⟨hress.ext.trans hresr.ext, by have := hress.len; have := hresr.len; omega, ?_, hresr.cur, hresr.pend, ?_⟩, ?_⟩
+        · intro i hi _
+          rw [hresr.frame i (by have := hress.len; omega) (by simp), hress.frame i hi]
+        · intro p hp'
+          left
+          rcases hresr.ge p hp' with h | h
+          · have := hress.len; omega
+          · cases h
+        · intro r hr i₀ a₀ tr₀ ds₀ e₀ hpath hex
+          rw [exitOf_nil hex] at hpath
+          have hs1 := pathOut_prepend hress.ext hpath (hpathss r hr)
+          unfold execList
+          cases hst : (exec rets fuelE s r).stop with
+          | true =>
+            rw [execList_stop rets fuelE rest _ hst]
+            exact PathOut.mono hresr.ext hs1 hst ps1
+          | false =>
+            obtain ⟨trs, q1, q2, _⟩ := hs1
+            obtain ⟨es, hps, hexs⟩ := q2 hst
+            obtain ⟨tr2, w1, w2, w3⟩ := hpathsr (exec rets fuelE s r) hst i₀ a₀ (tr₀ ++ trs) ds₀ es hps hexs
+            refine ⟨trs ++ tr2, by rw [w1, q1]; simp, ?_, ?_⟩
+            · intro hs'
+              obtain ⟨e, hpe, hexe⟩ := w2 hs'
+              exact ⟨e, by simpa [List.append_assoc] using hpe, hexe⟩
+            · intro hs'
+              obtain ⟨tr', ds'', e, hpe, hpf⟩ := w3 hs'
+              exact ⟨tr', ds'', e, hpe, by simpa [List.append_assoc] using hpf⟩
+      · trivial
+end
+
+-- ---------------------------------------------------------------------------- the theorem
+
+theorem isPrefix_iff : ∀ (a b : List Loc), isPrefix a b = true ↔ a <+: b
+  | [], b => by simp [isPrefix]
+  | x :: xs, [] => by simp [isPrefix]
+  | x :: xs, y :: ys => by
+    simp only [isPrefix, Bool.and_eq_true, beq_iff_eq, List.cons_prefix_cons]
+    rw [isPrefix_iff xs ys]
+
+theorem curOpen_init : CurOpen initBlocks :=
+  ⟨_, rfl, by simp [trailingBranch], rfl⟩
+
+/-- **C13, trace inclusion**: for every statement tree, every set of `return` locations and every sequence of
+    decisions, the statements the source program executes (up to its first `return`) are a prefix of the walk
+    of the lifted CFG under the same decisions, for every sufficiently large walk budget -/
+theorem trace_inclusion (rets : List Loc) (body : Stmt) (bs : List Block) (ps : List Nat) (ds : List Bool)
+    (h : lift body = .ok bs ps) :
+    ∃ N, ∀ fuel, N ≤ fuel → isPrefix (astTrace rets body ds) (walk bs fuel 0 ds []) = true := by
+  have hv := visit_paths rets (ds.length + 1) body 0 initBlocks (by simp [initBlocks]) curOpen_init
+  unfold lift at h
+  change visit body 0 initBlocks = _ at h
+  rw [h] at hv
+  obtain ⟨_, hpaths⟩ := hv
+  have hp := hpaths ⟨[], ds, false⟩ rfl
+  have h0 : initBlocks.length - 1 = 0 := rfl
+  have h1 : TracePaths.curLen initBlocks = 0 := rfl
+  rw [h0, h1] at hp
+  obtain ⟨tr, t1, t2, t3⟩ := hp
+  simp only [List.nil_append] at t1 t2 t3
+  unfold astTrace
+  rw [t1]
+  cases hst : (exec rets (ds.length + 1) body ⟨[], ds, false⟩).stop with
+  | false =>
+    obtain ⟨e, hpath, _⟩ := t2 hst
+    obtain ⟨N, hN⟩ := path_walk bs hpath
+    refine ⟨N, fun fuel hf => (isPrefix_iff _ _).mpr ?_⟩
+    have := hN fuel hf []
+    rw [before_zero] at this
+    simpa using this
+  | true =>
+    obtain ⟨tr', ds'', e, hpath, hpf⟩ := t3 hst
+    obtain ⟨N, hN⟩ := path_walk bs hpath
+    refine ⟨N, fun fuel hf => (isPrefix_iff _ _).mpr ?_⟩
+    have := hN fuel hf []
+    rw [before_zero] at this
+    exact hpf.trans (by simpa using this)
+
 end Circomspect.TracePaths
